@@ -229,6 +229,17 @@ func implStream(side any, variant int) string {
 
 var hashStrings = append([]string{"", "a", "ab", "abc", "b", "bc", "c", "L03N", "0", "\x00", "é", "123456_A..N"}, longHashStrings()...)
 
+// pickHashString: the empty string one time in six, a short string mostly, a long one one time in eight
+func pickHashString(r *Rng) string {
+	switch {
+	case r.P(1, 6):
+		return ""
+	case r.P(1, 8):
+		return hashStrings[12+r.Intn(len(hashStrings)-12)]
+	}
+	return hashStrings[r.Intn(12)]
+}
+
 // strings longer than any fixed-size staging buffer is likely to be (127 to 1100 bytes, also multi-byte)
 func longHashStrings() []string {
 	var out []string
@@ -290,10 +301,10 @@ func genTripData(r *Rng) map[string]any {
 	for i := 0; i < n; i++ {
 		m := map[string]any{"sr": genNum(r, 32) % 4, "arrival": genEventData(r), "departure": genEventData(r)}
 		if r.P(2, 3) {
-			m["stopId"] = bstr(r.Pick(hashStrings))
+			m["stopId"] = bstr(pickHashString(r))
 		}
 		if r.P(1, 3) {
-			m["track"] = bstr(r.Pick(hashStrings))
+			m["track"] = bstr(pickHashString(r))
 		}
 		if r.P(1, 2) {
 			m["stopSequence"] = genNum(r, 32)
@@ -301,7 +312,7 @@ func genTripData(r *Rng) map[string]any {
 		stus = append(stus, m)
 	}
 	return map[string]any{
-		"id": bstr(r.Pick(hashStrings)), "routeId": bstr(r.Pick(hashStrings)), "dir": r.Intn(3), "hasStartDate": r.Intn(2),
+		"id": bstr(pickHashString(r)), "routeId": bstr(pickHashString(r)), "dir": r.Intn(3), "hasStartDate": r.Intn(2),
 		"startDate": genNum(r, 64), "hasStartTime": r.Intn(2), "startTime": genNum(r, 64), "sr": genNum(r, 32) % 5, "stus": stus,
 	}
 }
@@ -309,7 +320,7 @@ func genTripData(r *Rng) map[string]any {
 func genVehicleData(r *Rng) map[string]any {
 	m := map[string]any{"congestionLevel": genNum(r, 32) % 5}
 	if r.P(2, 3) {
-		m["id"] = map[string]any{"id": bstr(r.Pick(hashStrings)), "label": bstr(r.Pick(hashStrings)), "licensePlate": bstr(r.Pick(hashStrings))}
+		m["id"] = map[string]any{"id": bstr(pickHashString(r)), "label": bstr(pickHashString(r)), "licensePlate": bstr(pickHashString(r))}
 	}
 	if r.P(1, 2) {
 		m["trip"] = genTripData(r)
@@ -332,7 +343,7 @@ func genVehicleData(r *Rng) map[string]any {
 		}
 	}
 	if r.P(1, 2) {
-		m["stopId"] = bstr(r.Pick(hashStrings))
+		m["stopId"] = bstr(pickHashString(r))
 	}
 	if r.P(1, 2) {
 		m["timestamp"] = genNum(r, 64)
@@ -367,6 +378,20 @@ func mutateOne(r *Rng, d map[string]any) (map[string]any, string) {
 	switch r.Intn(9) {
 	case 0: // string boundary shift between id and routeId
 		id, rt := gs(c, "id"), gs(c, "routeId")
+		if tr := gm(c, "trip"); tr == nil && (id == "") != (rt == "") && r.Bool() {
+			// one of two adjacent plain strings is empty: the other one moves over
+			if _, ok := c["routeId"]; ok {
+				c["id"], c["routeId"] = bstr(rt), bstr(id)
+				return c, "swap-with-empty"
+			}
+		}
+		if vid := gm(c, "id"); vid != nil {
+			a, b2, p3 := gs(vid, "id"), gs(vid, "label"), gs(vid, "licensePlate")
+			if !(a == b2 && b2 == p3) {
+				vid["id"], vid["label"], vid["licensePlate"] = bstr(p3), bstr(a), bstr(b2)
+				return c, "rotate-vehicle-id-strings"
+			}
+		}
 		if tr := gm(c, "trip"); tr != nil {
 			id, rt = gs(tr, "id"), gs(tr, "routeId")
 			if len(rt) > 0 {
